@@ -357,6 +357,12 @@ def execute(seed, nwin=6, sessions=("A", "B", "C"), p_fifo=0.6, pop3=False):
     stats = {"cmds": 0, "maxvt": 0.0, "stuck": [], "deadlock": False}
 
     async def main(loop):
+        # step-level recording of the admission protocol (innermost wrappers: before d.install(), and
+        # before the first management task blocks in Queue.get)
+        from . import schedsteps
+        schedsteps.install()
+        d.steps = schedsteps.Recorder()
+        schedsteps.ACTIVE[0] = d.steps
         await w.start()
         d.install()
         d.emit = lambda *a, **k: {"i": 0}     # observation points only stamp; no trace here
@@ -423,6 +429,7 @@ def execute(seed, nwin=6, sessions=("A", "B", "C"), p_fifo=0.6, pop3=False):
         try:
             return await run_windows(d, rng, list(sessions), nwin, stats, pop3=pop3)
         finally:
+            schedsteps.ACTIVE[0] = None
             _mb.Mailbox.append = d._orig_append
             _mbx.Mailbox.would_conflict = d._orig_wc
             d.uninstall()
@@ -438,6 +445,7 @@ def execute(seed, nwin=6, sessions=("A", "B", "C"), p_fifo=0.6, pop3=False):
             stats["deadlock"] = True
             wins = []
         stats["sched"] = getattr(d, "sched", [])
+        stats["steps"] = d.steps.dump() if getattr(d, "steps", None) else None
         stats["choices"] = chooser.choices
         stats["deviations"] = chooser.deviations
         return wins, stats
